@@ -199,6 +199,33 @@ fn written_case(t: &Target, l: &mut Local) {
         l.violation("unknown-does-not-expose-bytes", || hex_short(&bytes), || format!("{:02x?}", u.data()));
         return;
     }
+    // "can be embedded in compounds", read side: the written packet followed by another packet in one datagram (legal
+    // on the wire even when the first one is padded) comes out of the compound iteration as this unknown packet,
+    // then the other one
+    {
+        l.transitions += 1;
+        let mut two = bytes.clone();
+        two.extend_from_slice(&[0x81, 203, 0, 1, 0xAB, 0xCD, 0xEF, 0x01]);
+        let r = guard::catch(|| -> Result<(), String> {
+            let c = Compound::parse(&two).map_err(|e| format!("Compound::parse = {:?}", e))?;
+            let items: Vec<_> = c.take(4).collect();
+            match items.as_slice() {
+                [Ok(Packet::Unknown(first)), Ok(Packet::Bye(_))] if first.data() == &bytes[..] => Ok(()),
+                other => Err(format!("the datagram iterates as {} items: {:?}", other.len(), other.iter().map(|r| r.as_ref().map(|p| p.type_()).map_err(|e| format!("{:?}", e))).collect::<Vec<_>>())),
+            }
+        });
+        match r {
+            Err(pi) => {
+                l.subject_panic("Compound", &pi, || hex_short(&two));
+                return;
+            }
+            Ok(Err(m)) => {
+                l.violation(format!("written-packet-followed-by-another:{}", t.builder()), || hex_short(&two), || m);
+                return;
+            }
+            Ok(Ok(())) => {}
+        }
+    }
     // conversion back to every family member of this type number
     if EXT_PTS.contains(&pt) {
         let h = read::header(&bytes).unwrap();
